@@ -186,6 +186,8 @@ func createBooleanCandidate(owner *CandidateNode, value bool) *CandidateNode {
 }
 
 func createTraversalTree(path []interface{}, traversePrefs traversePreferences, targetKey bool) *ExpressionNode {
+	// path elements are keys taken from data; '*' and '?' in them are not wildcards
+	traversePrefs.ExactKeyMatch = true
 	if len(path) == 0 {
 		return &ExpressionNode{Operation: &Operation{OperationType: selfReferenceOpType}}
 	} else if len(path) == 1 {
